@@ -85,4 +85,344 @@ theorem doubling_intermediate (d : ℕ → Bool) (a i : ℤ) (J j : ℕ) (h1 : a
 example : visited (fun k => (5 : ℕ).testBit k) 0 2 = (-5 + 2 ^ 2 * ((0 - (-5)) / 2 ^ 2), -5 + 2 ^ 2 * ((0 - (-5)) / 2 ^ 2 + 1) - 1) := by
   decide
 
+/-! ## (3) the selection kernel of one doubling is reversible w.r.t. the uniform distribution -/
+
+/-- **Move probability of one doubling.**  From an in-slice start `i` in the old half `A` the
+    sampler ends the doubling at a *given* in-slice point `k` of the new half `N` with probability
+    `min(1, n_N/n_A) · 1/n_N = min(1/n_A, 1/n_N)` — an expression symmetric in the two halves. -/
+theorem one_doubling_move (S : ℤ → Bool) (A N : Finset ℤ) (hd : Disjoint A N) (i k : ℤ)
+    (hi : i ∈ A) (hSi : S i = true) (hk : k ∈ N) (hSk : S k = true) :
+    stepKernel S A N i k = min (1 / (nS S A : ℚ)) (1 / (nS S N : ℚ)) := by
+  have hne : k ≠ i := fun h => (Finset.disjoint_left.mp hd hi) (h ▸ hk)
+  have hA : (0 : ℚ) < nS S A := by exact_mod_cast nS_pos S A i hi hSi
+  have hN : (0 : ℚ) < nS S N := by exact_mod_cast nS_pos S N k hk hSk
+  simp only [stepKernel, hk, hSk, and_self, if_true, hne, if_false, add_zero]
+  exact min_one_div_mul _ _ hA hN
+
+example : stepKernel (fun x => x ≠ 1) {0, 1} {2, 3} 0 3 = 1 / 2 := by
+  rw [one_doubling_move _ _ _ (by decide) _ _ (by decide) (by decide) (by decide) (by decide)]
+  simp [nS]; decide +kernel
+
+/-- **Stay probability of one doubling**: `1 − min(1, n_N/n_A)`. -/
+theorem one_doubling_stay (S : ℤ → Bool) (A N : Finset ℤ) (hd : Disjoint A N) (i : ℤ) (hi : i ∈ A) :
+    stepKernel S A N i i = 1 - min 1 ((nS S N : ℚ) / nS S A) := by
+  have hiN : i ∉ N := Finset.disjoint_left.mp hd hi
+  simp [stepKernel, hiN]
+
+/-- **The one-doubling kernel is a probability distribution** over the points of the doubled
+    interval (all mass on in-slice points of the new half and on the start). -/
+theorem one_doubling_stochastic (S : ℤ → Bool) (A N : Finset ℤ) (i : ℤ) (hi : i ∈ A) :
+    ∑ k ∈ A ∪ N, stepKernel S A N i k = 1 := by
+  unfold stepKernel
+  rw [Finset.sum_add_distrib, ← Finset.sum_filter, Finset.sum_const, Finset.sum_ite_eq']
+  have hf : (A ∪ N).filter (fun k => k ∈ N ∧ S k = true) = N.filter (fun x => S x = true) := by
+    ext x; simp only [mem_filter, mem_union]; tauto
+  rw [hf, if_pos (Finset.mem_union_left _ hi)]
+  change (nS S N) • _ + _ = _
+  rw [nsmul_eq_mul]
+  rcases Nat.eq_zero_or_pos (nS S N) with h0 | hpos
+  · rw [h0]; simp
+  · have : (nS S N : ℚ) ≠ 0 := by exact_mod_cast (ne_of_gt hpos)
+    field_simp; ring
+
+/-- **Detailed balance of one doubling w.r.t. the uniform distribution on the in-slice points of
+    `A ∪ N`.**  `doublingKernel` takes as old half the half containing the start (from a start in
+    `N` the roles of `A` and `N` swap — by `doubling_symmetric` both situations arise with the same
+    probability).  For in-slice `i, k` of the union: `T(i → k) = T(k → i)`. -/
+theorem one_doubling_reversible (S : ℤ → Bool) (A N : Finset ℤ) (hd : Disjoint A N) (i k : ℤ)
+    (hi : i ∈ A ∪ N) (hk : k ∈ A ∪ N) (hSi : S i = true) (hSk : S k = true) :
+    doublingKernel S A N i k = doublingKernel S A N k i := by
+  have hd' : Disjoint N A := hd.symm
+  rcases Finset.mem_union.mp hi with hiA | hiN <;> rcases Finset.mem_union.mp hk with hkA | hkN
+  · have h1 : i ∉ N := Finset.disjoint_left.mp hd hiA
+    have h2 : k ∉ N := Finset.disjoint_left.mp hd hkA
+    simp only [doublingKernel, hiA, hkA, if_true, stepKernel, h1, h2, false_and, if_false, zero_add]
+    by_cases h : k = i
+    · subst h; rfl
+    · rw [if_neg h, if_neg (Ne.symm h)]
+  · have h1 : k ∉ A := Finset.disjoint_left.mp hd' hkN
+    simp only [doublingKernel, hiA, h1, if_true, if_false]
+    rw [one_doubling_move S A N hd i k hiA hSi hkN hSk, one_doubling_move S N A hd' k i hkN hSk hiA hSi,
+      min_comm]
+  · have h1 : i ∉ A := Finset.disjoint_left.mp hd' hiN
+    simp only [doublingKernel, hkA, h1, if_true, if_false]
+    rw [one_doubling_move S A N hd k i hkA hSk hiN hSi, one_doubling_move S N A hd' i k hiN hSi hkA hSk,
+      min_comm]
+  · have h1 : i ∉ A := Finset.disjoint_left.mp hd' hiN
+    have h2 : k ∉ A := Finset.disjoint_left.mp hd' hkN
+    simp only [doublingKernel, h1, h2, if_false, stepKernel, false_and, zero_add]
+    by_cases h : k = i
+    · subst h; rfl
+    · rw [if_neg h, if_neg (Ne.symm h)]
+
+/-- **One doubling leaves the uniform distribution on the in-slice points of `A ∪ N` invariant**:
+    with weight `1/n` on each of the `n` in-slice points, the total weight arriving at an in-slice
+    point `k` is again `1/n` (stated after cancelling the common factor `1/n`). -/
+theorem one_doubling_invariant (S : ℤ → Bool) (A N : Finset ℤ) (hd : Disjoint A N) (k : ℤ)
+    (hk : k ∈ A ∪ N) (hSk : S k = true) :
+    ∑ i ∈ (A ∪ N).filter (fun x => S x = true), doublingKernel S A N i k = 1 := by
+  have h1 : ∑ i ∈ (A ∪ N).filter (fun x => S x = true), doublingKernel S A N i k
+      = ∑ i ∈ (A ∪ N).filter (fun x => S x = true), doublingKernel S A N k i := by
+    apply Finset.sum_congr rfl
+    intro i hi
+    rw [Finset.mem_filter] at hi
+    exact one_doubling_reversible S A N hd i k hi.1 hk hi.2 hSk
+  rw [h1, Finset.sum_filter]
+  have h2 : ∀ i ∈ A ∪ N, (if S i = true then doublingKernel S A N k i else 0) = doublingKernel S A N k i := by
+    intro i _
+    by_cases hS : S i = true
+    · rw [if_pos hS]
+    · rw [if_neg hS]
+      have hne : i ≠ k := fun h => hS (h ▸ hSk)
+      unfold doublingKernel stepKernel
+      split <;> simp [hS]
+  rw [Finset.sum_congr rfl h2]
+  unfold doublingKernel
+  rcases Finset.mem_union.mp hk with hkA | hkN
+  · simp only [hkA, if_true]; exact one_doubling_stochastic S A N k hkA
+  · have : k ∉ A := Finset.disjoint_left.mp hd.symm hkN
+    simp only [this, if_false]
+    rw [Finset.union_comm]; exact one_doubling_stochastic S N A k hkN
+
+example : ∑ i ∈ ({0, 1} ∪ {2, 3} : Finset ℤ).filter (fun x => (fun x : ℤ => decide (x ≠ 1)) x = true),
+    doublingKernel (fun x => decide (x ≠ 1)) {0, 1} {2, 3} i 3 = 1 :=
+  one_doubling_invariant _ _ _ (by decide) 3 (by decide) (by decide)
+
+/-! ## (2) link to the model: the doubling loop visits index intervals -/
+section Link
+variable {Z : Type}
+
+/-- **One iteration of the doubling loop extends the visited index interval by one block.**
+    If the loop state has visited exactly the indices `[lo, hi]` (`LoopInv`: ends are the orbit
+    points `z_lo`, `z_hi`; `Loop.n` = number of in-slice indices; `hi − lo + 1 = 2^j`), then after
+    `loopBody` with a full new sub-tree (`s = 1`) it has visited exactly
+    `extend (direction bit) j (lo, hi)` — the block of `2^j` indices appended on the chosen side —
+    and `Loop.n` is again the number of in-slice indices of the interval. -/
+theorem loopBody_visits_interval (c : Ctx Z) (hinv : StepInverse c) (guard : Z → Bool) (z0 : Z)
+    (st : Loop Z) (lo hi : ℤ) (I : LoopInv c z0 st lo hi) (hs : st.s = true)
+    (hs' : (loopBody c guard st).s = true) :
+    LoopInv c z0 (loopBody c guard st) (extend (dirBit st) st.j (lo, hi)).1
+      (extend (dirBit st) st.j (lo, hi)).2 := by
+  obtain ⟨len, _, _, hfull, I'⟩ := loopBody_inv c hinv guard z0 st lo hi I hs
+  have hl : (len : ℤ) = 2 ^ st.j := by rw [hfull hs']; push_cast; rfl
+  rw [hl] at I'
+  unfold extend
+  by_cases hb : dirBit st = true
+  · simpa [hb] using I'
+  · simpa [hb] using I'
+
+/-- **After `J` completed doublings without stop the loop has visited the interval of
+    `doubling_interval`**, `[lo, lo + 2^J)` with `lo = −Σ_{k<J, d_k = −1} 2^k` (start index `0`,
+    `d_k` the direction drawn in iteration `k`), and `Loop.n` is the number of in-slice indices in it. -/
+theorem loop_visits_interval (c : Ctx Z) (hinv : StepInverse c) (guard : Z → Bool) (z0 : Z)
+    (us : List Rat) (h0 : inSlice c z0 = true) (J : ℕ)
+    (hs : ∀ t ≤ J, ((loopBody c guard)^[t] (loopInit z0 us)).s = true) :
+    let d : ℕ → Bool := fun t => dirBit ((loopBody c guard)^[t] (loopInit z0 us))
+    let st := (loopBody c guard)^[J] (loopInit z0 us)
+    LoopInv c z0 st (visited d 0 J).1 (visited d 0 J).2 ∧ st.j = J ∧
+      (visited d 0 J).2 = (visited d 0 J).1 + 2 ^ J - 1 ∧
+      st.n = cnt (sliceAt c z0) (visited d 0 J).1 (2 ^ J) := by
+  intro d st
+  have key : LoopInv c z0 st (visited d 0 J).1 (visited d 0 J).2 ∧ st.j = J := by
+    induction J with
+    | zero => exact ⟨loopInit_inv c z0 us h0, rfl⟩
+    | succ J ih =>
+      obtain ⟨I, hj⟩ := ih (fun t ht => hs t (by omega))
+      have e : st = loopBody c guard ((loopBody c guard)^[J] (loopInit z0 us)) :=
+        Function.iterate_succ_apply' _ _ _
+      rw [e]
+      refine ⟨?_, by rw [loopBody_j, hj]⟩
+      have := loopBody_visits_interval c hinv guard z0 _ _ _ I (hs J (by omega)) (by rw [← e]; exact hs (J + 1) (le_refl _))
+      rw [hj] at this
+      exact this
+  refine ⟨key.1, key.2, ?_, ?_⟩
+  · rw [visited_eq]
+  · rw [key.1.count]
+    congr 1
+    rw [visited_eq]; simp only
+    have : ((2 : ℤ) ^ J).toNat = 2 ^ J := by
+      have : ((2 : ℤ) ^ J) = ((2 ^ J : ℕ) : ℤ) := by push_cast; rfl
+      rw [this, Int.toNat_natCast]
+    rw [← this]; congr 1; ring
+
+/-- **The loop of `nutsStep` is a finite iteration of `loopBody`**: it performs `m ≤ maxDepth + 1`
+    doublings, every one of them entered with `s = 1`. -/
+theorem nutsStep_eq_iterate (c : Ctx Z) (guard : Z → Bool) (md : ℕ) (z0 : Z) (us : List Rat) :
+    ∃ m ≤ md + 1, nutsStep c guard md z0 us = (loopBody c guard)^[m] (loopInit z0 us) ∧
+      ∀ t < m, ((loopBody c guard)^[t] (loopInit z0 us)).s = true :=
+  loop_eq_iterate c guard md (md + 1) (loopInit z0 us)
+
+/-- **At the end of a transition the visited indices form an interval `[lo, hi] ∋ 0`** (also when
+    the last doubling was cut short by a stop), its ends are `zminus = z_lo`, `zplus = z_hi`, and
+    `Loop.n` is the number of in-slice indices visited. -/
+theorem nutsStep_visits_interval (c : Ctx Z) (hinv : StepInverse c) (guard : Z → Bool) (md : ℕ)
+    (z0 : Z) (us : List Rat) (h0 : inSlice c z0 = true) :
+    ∃ lo hi, LoopInv c z0 (nutsStep c guard md z0 us) lo hi :=
+  loop_inv c hinv guard z0 md (md + 1) _ 0 0 (loopInit_inv c z0 us h0)
+
+/-- a concrete reversible context: translation on `ℤ`, slice = even points of `[-6, 6]` -/
+def exCtx : Ctx ℤ where
+  step := fun v z => z + v
+  ham := fun z => if z % 2 = 0 ∧ -6 ≤ z ∧ z ≤ 6 then XR.fin 0 else XR.fin (-5)
+  noUturn := fun a b => decide (b - a < 6)
+  logu := -1
+  ham0 := 0
+
+example : StepInverse exCtx := ⟨fun z => by simp [exCtx], fun z => by simp [exCtx]⟩
+
+example : LoopInv exCtx 0 (loopInit 0 []) 0 0 :=
+  loopInit_inv exCtx 0 [] (by simp [inSlice, exCtx, XR.geRat])
+
+end Link
+
+/-! ## (4) the orbit-level NUTS transition is reversible w.r.t. the uniform distribution on the slice -/
+
+/-- a small trajectory: in-slice = indices in `[-3, 4]` other than `1`; a U-turn is reported for
+    every block of `8` points whose lower end is below `-5` or above `-2`; no guard -/
+def exOrb : Orb where
+  S := fun k => decide (-3 ≤ k ∧ k ≤ 4 ∧ k ≠ 1)
+  nd := fun k => decide (-6 ≤ k ∧ k ≤ 7)
+  ut := fun j a => decide (j < 3 ∨ (-5 ≤ a ∧ a ≤ -2))
+  g := fun _ => true
+
+/-- **Whether the loop is still running depends on the visited block only, not on the start.**
+    From any non-diverged start `i`, along any direction bits `m`: "all of `s_0 … s_J` are `1`"
+    (the loop performed `J` doublings and will perform another one) holds iff the block
+    `[i − m mod 2^J, … + 2^J)` visited after `J` doublings is `good` — a property of the block.
+    So all starts of a block agree on whether the trajectory stops there. -/
+theorem stopping_depends_on_block_only (o : Orb) (m J : ℕ) (i : ℤ) (hnd : o.nd i = true) :
+    (o.al m J (oinit i) && (o.fwd m J (oinit i)).s) = o.good J (i - ((m % 2 ^ J : ℕ) : ℤ)) :=
+  o.alive_good m J i hnd
+
+example : (exOrb.al 5 3 (oinit 0) && (exOrb.fwd 5 3 (oinit 0)).s) = exOrb.good 3 (-5) :=
+  stopping_depends_on_block_only exOrb 5 3 0 (by decide)
+
+/-- **Closed form of the orbit-level transition.**  `Orb.P M i k` is defined operationally
+    (`Orb.walk`: while `s = 1` and fewer than `M` doublings were made, toss a fair coin for the
+    direction, build the new half, accept its uniformly drawn in-slice candidate with probability
+    `min(1, n_new/n_old)` if the new half reports `s' = 1`, update `s`).  It equals the sum over
+    the number `J` of doublings and over the `2^J` possible final blocks `[i − m, i − m + 2^J)`
+    (one per direction sequence, `doubling_symmetric`), each weighted `2^{-J}`, of the weight `Orb.H`
+    of stopping exactly with that block and being at `k`. -/
+theorem nuts_orbit_closed_form (o : Orb) (M : ℕ) (i k : ℤ) (hnd : o.nd i = true) :
+    o.P M i k = ∑ J ∈ range (M + 1), (1 / 2 : ℚ) ^ J * ∑ m ∈ range (2 ^ J), o.H M J (i - m) i k :=
+  o.P_eq M i k hnd
+
+/-- **Block weights are symmetric.**  For two admissible (in-slice, guard-passing) indices `i, k` of a
+    block `[a, a + 2^J)`: the probability weight of "the loop performs the `J` doublings that lead
+    from `i` to this block and is then at `k`" equals the one with `i` and `k` exchanged.  (Induction
+    over the levels: in the half containing both the weight is the lower-level weight times the common
+    stay factor; across the two halves it is `[both halves good] · min(1/n_L, 1/n_R)`, `swap_symmetric`.) -/
+theorem nuts_block_symmetric (o : Orb) (hS : ∀ x, o.S x = true → o.nd x = true) (J : ℕ) (a i k : ℤ)
+    (hi1 : a ≤ i) (hi2 : i < a + 2 ^ J) (hk1 : a ≤ k) (hk2 : k < a + 2 ^ J)
+    (hSi : o.S i = true) (hgi : o.g i = true) (hSk : o.S k = true) (hgk : o.g k = true) :
+    o.G J a i k = o.G J a k i :=
+  o.G_sym hS J a i k hi1 hi2 hk1 hk2 hSi hgi hSk hgk
+
+/-- **Detailed balance of the orbit-level NUTS transition.**  For every trajectory (`S` slice
+    indicator, `nd` divergence indicator with `S ⊆ nd`, arbitrary block-wise U-turn verdicts `ut`,
+    guard `g`), every depth bound `M` and all admissible indices `i, k`:
+    `P(i → k) = P(k → i)`.  Hence the transition is reversible with respect to the uniform
+    (counting) distribution on the admissible indices of the trajectory. -/
+theorem nuts_orbit_reversible (o : Orb) (hS : ∀ x, o.S x = true → o.nd x = true) (M : ℕ) (i k : ℤ)
+    (hSi : o.S i = true) (hgi : o.g i = true) (hSk : o.S k = true) (hgk : o.g k = true) :
+    o.P M i k = o.P M k i :=
+  o.P_sym hS M i k hSi hgi hSk hgk
+
+example : exOrb.P 4 0 3 = exOrb.P 4 3 0 :=
+  nuts_orbit_reversible exOrb (by intro x; simp only [exOrb, decide_eq_true_eq]; omega) 4 0 3
+    (by decide) rfl (by decide) rfl
+
+/-- **The orbit-level transition is a probability distribution**: over any index window containing
+    the `2^(M+1) − 1` indices reachable with `M` doublings the probabilities `P(i → ·)` sum to `1`. -/
+theorem nuts_orbit_stochastic (o : Orb) (M : ℕ) (i : ℤ) (W : Finset ℤ)
+    (hW : Finset.Ico (i + 1 - 2 ^ M) (i + 2 ^ M) ⊆ W) : ∑ k ∈ W, o.P M i k = 1 :=
+  o.P_mass M i W hW
+
+/-- **The sampler only moves to admissible points**: an index other than the start that is outside
+    the slice (or fails the guard) has transition probability `0` — the orbit-level counterpart of
+    `selected_in_slice` / `nutsStep_coherent_finite`. -/
+theorem nuts_orbit_support (o : Orb) (M : ℕ) (i k : ℤ) (hne : k ≠ i)
+    (hk : ¬ (o.S k = true ∧ o.g k = true)) : o.P M i k = 0 :=
+  o.P_zero_of M i k hne hk
+
+/-- **The orbit-level NUTS transition leaves the uniform distribution on the admissible indices
+    invariant.**  Put weight `w` on every in-slice, guard-passing index of the trajectory; after one
+    transition every such index `k` again carries weight `w` (stated after cancelling `w`; the sum
+    runs over any finite window `W` containing all indices from which `k` is reachable, so it also
+    covers trajectories with infinitely many in-slice points). -/
+theorem nuts_orbit_invariant (o : Orb) (hS : ∀ x, o.S x = true → o.nd x = true) (M : ℕ) (k : ℤ)
+    (hSk : o.S k = true) (hgk : o.g k = true) (W : Finset ℤ)
+    (hW : Finset.Ico (k + 1 - 2 ^ M) (k + 2 ^ M) ⊆ W) :
+    ∑ i ∈ W.filter (fun i => o.S i = true ∧ o.g i = true), o.P M i k = 1 :=
+  o.P_invariant hS M k hSk hgk W hW
+
+example : ∑ i ∈ (Finset.Ico (-20 : ℤ) 20).filter (fun i => exOrb.S i = true ∧ exOrb.g i = true),
+    exOrb.P 4 i 3 = 1 :=
+  nuts_orbit_invariant exOrb (by intro x; simp only [exOrb, decide_eq_true_eq]; omega) 4 3
+    (by decide) rfl _ (by apply Finset.Ico_subset_Ico <;> norm_num)
+
+/-! ## link of the orbit-level transition to the executable model -/
+section Link2
+variable {Z : Type}
+
+/-- **The flag `s'` of `_BuildTree` is a function of the index block only.**  For a reversible
+    integrator, the tree of depth `j` built in direction `v = ±1` from the orbit point `z_k` reports
+    `s' = Orb.good j a`, where `[a, a + 2^j)` is the block of indices it covers
+    (`a = k + 1` forwards, `a = k − 2^j` backwards): all leaves not diverged and the no-U-turn test
+    passed on every aligned sub-block — whatever the direction, the start and the uniform draws.
+    If `s' = 1` the returned ends are `z_a` and `z_{a + 2^j − 1}`. -/
+theorem buildTree_s_eq_good (c : Ctx Z) (hinv : StepInverse c) (guard : Z → Bool) (z0 : Z) (v : ℤ)
+    (hv : v = 1 ∨ v = -1) (j : ℕ) (k : ℤ) (us : List Rat) :
+    (buildTree c v j (pt c z0 k) us).1.s = (orbOf c guard z0).good j (blockLo v k j) ∧
+    ((buildTree c v j (pt c z0 k) us).1.s = true →
+      (buildTree c v j (pt c z0 k) us).1.zminus = pt c z0 (blockLo v k j) ∧
+      (buildTree c v j (pt c z0 k) us).1.zplus = pt c z0 (blockLo v k j + 2 ^ j - 1)) :=
+  buildTree_good c hinv guard z0 v hv j k us
+
+/-- **The continuation flag of `loopBody` is the one of the orbit-level doubling `Orb.body`**:
+    with visited interval `[lo, hi]`, `s = good j (new half) && ut (j+1) (doubled block)`. -/
+theorem loopBody_matches_orbit_body (c : Ctx Z) (hinv : StepInverse c) (guard : Z → Bool) (z0 : Z)
+    (st : Loop Z) (lo hi : ℤ) (I : LoopInv c z0 st lo hi) (hs : st.s = true) (dist : ℤ → ℚ) :
+    (loopBody c guard st).s =
+      ((orbOf c guard z0).body (dirBit st) { lo := lo, j := st.j, s := true, dist := dist }).s ∧
+    (loopBody c guard st).j =
+      ((orbOf c guard z0).body (dirBit st) { lo := lo, j := st.j, s := true, dist := dist }).j :=
+  ⟨loopBody_s c hinv guard z0 st lo hi I hs dist, by rw [loopBody_j]; rfl⟩
+
+/-- **Top-level acceptance probability.**  The event tested by `loopBody`,
+    `rand() * n < n'  and  rand() < 1`, is the event `rand() < min(1, n'/n)`; under a uniform draw
+    it has probability `min(1, n'/n)` — the factor used in `Orb.acc`. -/
+theorem top_accept_iff (u : ℚ) (n n' : ℕ) (hn : 0 < n) :
+    (decide (u * (n : ℚ) < (n' : ℚ)) && decide (u < 1)) = true ↔ u < min 1 ((n' : ℚ) / n) :=
+  top_accept u n n' hn
+
+example : (decide ((1 / 2 : ℚ) * (3 : ℕ) < (2 : ℕ)) && decide ((1 / 2 : ℚ) < 1)) = true :=
+  (top_accept_iff (1 / 2) 3 2 (by norm_num)).mpr (by norm_num)
+
+end Link2
+
+/-
+  ## What is NOT proved here (the remaining gap)
+
+  (a) `Orb.walk` is the law of the final state of `loop` under independent uniform draws.  The
+      pieces are proved (`loopBody_visits_interval`, `loopBody_matches_orbit_body`,
+      `buildTree_s_eq_good`, `top_accept_iff`, `progressive_uniform`, `count_eq_slice`), but the
+      statement itself needs a probabilistic semantics of the draw script `us` (a PMF monad over
+      the list of uniforms), which the model does not have: the identification of `Orb.body`'s
+      update of `dist` with "accept the uniformly distributed candidate with probability
+      `min(1, n'/n)`" is by inspection of `loopBody`.
+
+  (b) From the orbit to phase space.  Statement (not formalised):
+        for a measurable target density π on ℝⁿ, with momentum r ~ N(0, I) and slice variable
+        u ~ U[0, π(x) e^{-|r|²/2}] redrawn at the start of every transition, the Markov kernel
+        on x induced by `nutsStep` leaves π invariant.
+      Proof outline: `leapfrog_volume` + `leapfrog_reversible` make z ↦ (orbit of z, index of z)
+      a measure-preserving bijection between the slice {H ≥ log u} and (orbits × in-slice
+      indices) with counting measure on the indices; `nuts_orbit_invariant` gives invariance
+      of the counting measure on each orbit; integrate over orbits, u and r.  The obstacle is
+      the disintegration of Lebesgue measure on the slice along the ℤ-action of the leapfrog
+      map (a measurable fundamental domain), for which Mathlib has no ready-made statement.
+-/
+
 end CuqiVerif.C08
